@@ -279,6 +279,11 @@ class Program:
                 inlined = inlined + [f"scalarised {n_sc} record local(s)"]
             from .normalize import coalesce_copies
 
+            from .normalize import propagate_param_copies
+
+            n_pc = propagate_param_copies(tree)
+            if n_pc:
+                inlined = inlined + [f"propagated {n_pc} copies of parameters"]
             n_cc = coalesce_copies(tree)
             if n_cc:
                 inlined = inlined + [f"coalesced {n_cc} plain copies"]
